@@ -28,6 +28,10 @@ class StopReplay(BaseException):
     pass
 
 
+class ReachedCut(BaseException):
+    """the native run reached a callee that the proof replaced by its contract"""
+
+
 def resolve(qual):
     parts = qual.split('.')
     for k in range(len(parts), 0, -1):
@@ -102,6 +106,13 @@ def main(path):
     state = build(model['state']) if 'state' in model else None
     args = {k: build(v) for k, v in model['args'].items()}
     target = resolve(model['function'])
+    if isinstance(target, property):
+        _fget = target.fget
+
+        def target(self, _f=_fget):
+            import types
+            r = _f(self)
+            return tuple(r) if isinstance(r, types.GeneratorType) else r
     K = resolve(rep['contract']) if rep.get('contract') else None
     if K is not None and hasattr(K, 'native_case'):
         # the contract knows how to realise the abstract parts of the model with real objects
@@ -139,14 +150,20 @@ def main(path):
             return v
         setattr(owner, name, property(lambda self, _s=stub: _s(self)) if isinstance(orig, property) else stub)
         restore.append((owner, name, orig))
+    cascade = ob['meta'].get('path', '').startswith(('call:', 'loop-')) or ob['meta'].get('component') is not None
     for qual in model.get('havoc_callees') or []:
         owner = resolve(qual.rsplit('.', 1)[0]); name = qual.rsplit('.', 1)[1]
+        if qual == model['function']:
+            continue
         orig = owner.__dict__[name]
 
         def stub2(self, operation=None, *a, **k):
             if operation is not None:
                 self.operations.append(operation)
-        setattr(owner, name, stub2)
+
+        def stub3(self, *a, _name=name, **k):
+            raise ReachedCut(_name)
+        setattr(owner, name, stub3 if cascade else stub2)
         restore.append((owner, name, orig))
     with warnings.catch_warnings():
         warnings.simplefilter('error' if warn_err else 'ignore')
@@ -179,7 +196,53 @@ def main(path):
             except BaseException as e:     # noqa
                 exc = e
 
-        if path_kind.startswith('at-call:'):
+        if path_kind.startswith('loop-'):
+            out['confirmed'] = None
+            out['detail'] = 'obligation at a loop cut by an invariant: the arbitrary-iteration state has no native counterpart'
+        elif path_kind.startswith('call:') or (cascade and path_kind == 'normal'):
+            # cascade obligation: a component must hold at the k-th call of a callee under contract (or at the exit)
+            verdict = {}
+            want_callee = meta.get('callee', '').rsplit('.', 1)[-1] if path_kind.startswith('call:') else None
+            occ = int(ob['id'].split('#')[1].split('/')[0]) if '#' in ob['id'] else 0
+            seen = {'k': 0}
+            if want_callee:
+                owner = resolve(meta['callee'].rsplit('.', 1)[0])
+                orig2 = owner.__dict__[want_callee]
+
+                def probe2(self, *pa, **pk):
+                    if seen['k'] == occ:
+                        verdict['value'] = bool(call_clause(find_clause(meta['clause']), dict(bindings)))
+                        raise StopReplay()
+                    seen['k'] += 1
+                    raise ReachedCut(want_callee)
+                setattr(owner, want_callee, probe2)
+            try:
+                try:
+                    run()
+                except StopReplay:
+                    pass
+            finally:
+                if want_callee:
+                    setattr(owner, want_callee, orig2)
+            if want_callee:
+                if 'value' in verdict:
+                    out['confirmed'] = not verdict['value']
+                    out['detail'] = f'component {meta.get("component")} at the call of {want_callee} evaluated to {verdict["value"]}'
+                else:
+                    out['confirmed'] = None
+                    out['detail'] = f'the call of {want_callee} was not reached natively ({exc!r}): the model passes through a callee under contract'
+            elif isinstance(exc, ReachedCut):
+                out['confirmed'] = None
+                out['detail'] = f'the native run reached the callee {exc} that the proof replaces by its contract; exit state not comparable'
+            elif exc is not None:
+                out['confirmed'] = None
+                out['detail'] = f'native run raised {type(exc).__name__}: {exc}'
+            else:
+                bindings['r'] = result
+                val = bool(call_clause(find_clause(meta['clause']), bindings))
+                out['confirmed'] = not val
+                out['detail'] = f'component {meta.get("component")} evaluated to {val} on the real post-state'
+        elif path_kind.startswith('at-call:'):
             callee_q = path_kind.split(':', 1)[1]
             owner = resolve(callee_q.rsplit('.', 1)[0])
             name = callee_q.rsplit('.', 1)[1]
